@@ -17,6 +17,10 @@ def run(ctx):
     for cfg in ("Batch_C15.cfg", "Batch_C15_fail.cfg", "Batch_C15_serial.cfg"):
         ctx.model_check(_batch.MC, cfg)
     ctx.negative_control(_batch.MC, "Batch_C15_neg_drop.cfg", ("C15_ExactlyOnce", "C15_ErrorSurfaces"))
+    # liveness: under fair workers every batch ends, with or without a failing execution (negative control: no fairness)
+    ctx.model_check(_batch.MC, "Batch_C15_live.cfg")
+    ctx.model_check(_batch.MC, "Batch_C15_live_fail.cfg")
+    ctx.negative_control(_batch.MC, "Batch_C15_live_neg_unfair.cfg", "C15_BatchEnds")
     procs = [1, 2, 3, cores] if q else list(range(1, cores + 1))
     _batch.validate(ctx, B.fail_position_programs(procs), "a failing execution at every position of a 4-task batch x process counts", tamper=False, isolated=True)
     _batch.validate(ctx, B.empty_batch_programs(procs), "batches without any execution (empty value list / zero repetitions) x process counts",
